@@ -215,6 +215,7 @@ def run(ctx):
         ctx.check(byte in consts, "C10.constants", f"C10.constants:sigil:{mod}", w.where(fv), bad_msg=f"sigil byte passed by {mod}::validate is {consts}, expected {byte} ({chr(byte)!r})")
     server_name_rules(ctx, w)
     length_rules(ctx, w)
+    split_agreement(ctx, w, "C10.split-agreement")
     if ctx.tier == "thorough":
         from .. import witness
         witness.check(ctx, "C10.witness", {"C10FromBorrowed": "UserId::from_borrowed is callable from another crate: identifiers can be created without validation", "C10FromBox": "RoomAliasId::from_box is callable from another crate: identifiers can be created without validation"})
@@ -285,6 +286,37 @@ def server_name_rules(ctx, w):
         else:
             ctx.ok("C10.server_name", f"C10.server_name:nonempty-host:{form}:{'port' if has_port else 'noport'}", w.where(f),
                    "non-empty by construction (whole non-empty string, or bracketed literal)")
+        # (a') hostname alphabet: ASCII letters, digits, '-' and '.' only
+        if form in ("host", "host:port"):
+            hp = [(a, v) for a, v in p.conds if re.match(r"^Iterator::(any|all)\((str::bytes|str::chars)\(traits::index\(s, RangeTo", D.show_atom(a))]
+            verdict = "no character test on the hostname"
+            for a, v in hp:
+                sa = D.show_atom(a)
+                m = re.match(r"^Iterator::(any|all)\((str::bytes|str::chars)\(.*\), (?:closure|fn)\[([^\]]+)\](\{.*\})?\)$", sa)
+                if not m:
+                    continue
+                quant, unit, clo = m.group(1), m.group(2), w.lookup(m.group(3))
+                if clo is None or "body" not in clo:
+                    continue
+                tt = byte_truth_table(w, clo)
+                if isinstance(tt, str):
+                    verdict = tt
+                    continue
+                allowed = {b for b in range(256) if (tt[b] if quant == "all" else not tt[b])} if (v is True) == (quant == "all") else None
+                want = {b for b in range(128) if chr(b).isalnum() or chr(b) in "-."}
+                if allowed is None:
+                    verdict = f"the {quant}(..) test is taken on the wrong outcome"
+                elif unit != "str::bytes" and any(b >= 128 for b in allowed):
+                    verdict = "non-ASCII characters pass the hostname test"
+                elif allowed == want:
+                    verdict = None
+                else:
+                    extra, missing = sorted(allowed - want)[:6], sorted(want - allowed)[:6]
+                    verdict = f"hostname bytes accepted beyond the grammar: {[chr(b) if 32 <= b < 127 else hex(b) for b in extra]}; refused although allowed: {[chr(b) for b in missing]}"
+            ctx.check(verdict is None, "C10.server_name", f"C10.server_name:host-charset:{form}:{'port' if has_port else 'noport'}", w.where(f),
+                      ok_msg="hostname bytes are exactly [A-Za-z0-9.-]",
+                      bad_msg=f"{verdict}: the property allows only a hostname (ASCII letters, digits, '-', '.'), an IPv4 or a bracketed IPv6 literal; "
+                              f"e.g. `exämple.com` or `example.cоm` (Cyrillic o) must be rejected")
         # (b), (c) the port
         if has_port:
             ports = [a for a, v in atoms if a.startswith("str::parse(traits::index(s, RangeFrom") and a.endswith(" is Ok") and v]
@@ -347,3 +379,112 @@ def length_rules(ctx, w):
                       bad_msg=f"an accepting path of {mod}::validate does not pass through validate_id(input, sigil): that form of the identifier is "
                               f"accepted without the 255-byte limit (e.g. `$` followed by 300 characters and no colon)")
     ctx.floor("identifier accepting paths", n_ok, 7)
+
+
+# accessor type (module::Type under ruma_common::identifiers) -> validator functions that checked the structure the accessor relies on
+SPLIT_VALIDATORS = {
+    "event_id::EventId": ["ruma_identifiers_validation::parse_id"],
+    "key_id::KeyId": ["ruma_identifiers_validation::key_id::validate"],
+    "room_alias_id::RoomAliasId": ["ruma_identifiers_validation::parse_id"],
+    "room_or_alias_id::RoomOrAliasId": ["ruma_identifiers_validation::parse_id"],
+    "user_id::UserId": ["ruma_identifiers_validation::parse_id"],
+    "server_name::ServerName": ["ruma_identifiers_validation::server_name::validate"],
+}
+SEARCHES = ("find", "rfind", "split_once", "rsplit_once", "split", "rsplit", "splitn", "rsplitn", "split_terminator", "rsplit_terminator")
+
+
+def _separator_searches(w, fns):
+    out = set()
+    for fn in fns:
+        for body in M.all_bodies(fn):
+            for _, c in M.calls(body):
+                n = M.callee_name(c)
+                last = n.rsplit("::", 1)[-1]
+                if "<impl str>" in n and last in SEARCHES:
+                    pats = [a.get("v") for a in c["args"][1:] if a.get("k") == "const" and isinstance(a.get("v"), str)]
+                    if pats and pats[0] in (":", "[", "]"):
+                        out.add((last, pats[0]))
+    return out
+
+
+def split_agreement(ctx, w, rule, only=None):
+    """Accessors re-find the separators that the validator checked: they must search the same way (first vs last occurrence, same
+    separator). `KeyId::colon_idx` with rfind(':') would take `ed25519:bridge:1` apart as (`ed25519:bridge`, `1`) although validate and
+    from_parts use the first colon."""
+    ctx.rule(rule, "every separator search (find/rfind/split.. of ':', '[', ']') in the component accessors of an identifier type also occurs, with the "
+                   "same search function and separator, in the validator that accepted the identifier; so the accessor splits where the validator did")
+    n = 0
+    for ty, validators in SPLIT_VALIDATORS.items():
+        if only and ty not in only:
+            continue
+        pre = "ruma_common::identifiers::" + ty
+        acc = [f for f in w.all_fns() if f["path"].startswith(pre) and "body" in f]
+        val = [w.fn(v) for v in validators]
+        # the validator may delegate the search to crate-local helpers (one level)
+        extra = []
+        for v in val:
+            for _, c in M.calls(v["body"]):
+                g = w.lookup(M.callee_name(c))
+                if g is not None and g["path"].startswith("ruma_identifiers_validation::") and "body" in g:
+                    extra.append(g)
+        vs = _separator_searches(w, val + extra)
+        for fn in acc:
+            for s_ in sorted(_separator_searches(w, [fn])):
+                n += 1
+                meth = PC.norm_path(fn["path"])[len("ruma_common::identifiers::"):]
+                ctx.check(s_ in vs, rule, f"{rule}:{meth}:{s_[0]}({s_[1]!r})", w.where(fn),
+                          ok_msg=f"same search as {validators[0].rsplit('::', 2)[-2:]}",
+                          bad_msg=f"the accessor searches with {s_[0]}({s_[1]!r}) but the validator {validators} only checked {sorted(vs)}: for an identifier "
+                                  f"with several separators the accessor splits at a place the validator did not look at (e.g. key id `ed25519:bridge:1`)")
+    ctx.floor(f"{rule} accessor searches", n, 1 if only else 8)
+
+
+U8_PREDICATES = {
+    "is_ascii_alphanumeric": lambda b: chr(b).isalnum() and b < 128, "is_ascii_alphabetic": lambda b: chr(b).isalpha() and b < 128,
+    "is_ascii_digit": lambda b: 48 <= b <= 57, "is_ascii_lowercase": lambda b: 97 <= b <= 122, "is_ascii_uppercase": lambda b: 65 <= b <= 90,
+    "is_ascii_hexdigit": lambda b: chr(b) in "0123456789abcdefABCDEF", "is_ascii": lambda b: b < 128,
+    "is_ascii_punctuation": lambda b: b < 128 and not chr(b).isalnum() and 33 <= b <= 126, "is_ascii_whitespace": lambda b: b in (9, 10, 12, 13, 32),
+    "is_ascii_control": lambda b: b < 32 or b == 127, "is_ascii_graphic": lambda b: 33 <= b <= 126,
+}
+
+
+def byte_truth_table(w, clo):
+    """Truth value of a `|b: u8| -> bool` (or `|c: char|`) closure for b in 0..=255, from its DEX paths; core's ASCII classification methods are
+    interpreted by their documented meaning. Returns a list of 256 bools, or a string saying what could not be interpreted (e.g. a
+    Unicode-aware `char::is_alphanumeric`)."""
+    dx = D.Dex(w.lookup, adt_discr=w.adt_discr, inline=lambda n: n.startswith("ruma_identifiers_validation::") and "{closure" not in n)
+    paths = dx.paths(clo, [D.sym("env"), D.sym("b")] if "{closure" in clo["path"].rsplit("::", 1)[-1] else [D.sym("b")])   # closure or plain fn
+    if any(p.kind != "ret" for p in paths):
+        return "the character predicate has a non-returning path"
+
+    def valuation(b):
+        def val(atom):
+            t = D.show_atom(atom)
+            if atom[0] == "bool":
+                m = re.match(r"^(?:\w+::)*(is_ascii\w*)\(b\)$", t)
+                if m and m.group(1) in U8_PREDICATES:
+                    return U8_PREDICATES[m.group(1)](b)
+                raise KeyError(t)
+            if atom[0] in ("eq", "cmp"):
+                def num(x):
+                    if D.is_const(x):
+                        return ord(x[1]) if isinstance(x[1], str) and len(x[1]) == 1 else (x[1] if isinstance(x[1], int) else None)
+                    return b if D.show(x) == "b" else None
+                l, r = (num(atom[1]), num(atom[2])) if atom[0] == "eq" else (num(atom[2]), num(atom[3]))
+                if l is None or r is None:
+                    raise KeyError(t)
+                return l == r if atom[0] == "eq" else l < r
+            raise KeyError(t)
+        return val
+    table = []
+    try:
+        for b in range(256):
+            val = valuation(b)
+            sel = D.evaluate(paths, val)
+            outs = {D.eval_bool(p_.ret, val) for p_ in sel}
+            if len(outs) != 1 or None in outs:
+                return f"the character predicate is not decided for byte {b}"
+            table.append(outs.pop())
+    except KeyError as e:
+        return f"the character predicate uses `{e.args[0][:60]}`, which is not an ASCII classification"
+    return table
